@@ -113,6 +113,8 @@ def check(stats, case_seed):
             return
         seen = {}
         for ref in b.refs:
+            if getattr(ref, "no_binding_check", False):
+                continue
             want = expect[id(ref)][1].canonical()
             f = find_field(r.ir, ref.scope.file, ref.scope.path, ref.holder)
             got = observed_target(f, ref) if f is not None else None
@@ -148,6 +150,32 @@ def check(stats, case_seed):
             hit = True
         elif key not in lines_with_things:
             stats.fail({"kind": "error-on-unrelated-line"}, case, "%s at %s:%s" % (m.message, m.source_file, m.location))
+    # duplicates are found by the very first pass (symbol table construction), which reports all of them:
+    # every predicted duplicate must be named by some message (at either of the two definitions)
+    def only_field_duplicates():
+        for sc in b.all_scopes():
+            first_of = {}
+            for d in sc.defs:
+                if d.name in first_of and not (d.kind == "field" and first_of[d.name].kind == "field" and d.line != first_of[d.name].line):
+                    return False
+                first_of.setdefault(d.name, d)
+        return True
+
+    # (type names are entered before field names, and a failure there ends the pass: the rule below is
+    # applied only to modules whose duplicates are all between fields)
+    if dup and only_field_duplicates():
+        said = set((m.source_file, m.location.start.line) for g in r.errors for m in g)
+        for sc in b.all_scopes():
+            first_of = {}
+            for d in sc.defs:
+                if d.name in first_of:
+                    # (only two *fields* on different lines: import aliases and abbreviations are reported by
+                    # other passes, which may not run once this one has failed)
+                    if d.kind == "field" and first_of[d.name].kind == "field" and d.line != first_of[d.name].line and (sc.file, d.line) not in said and (sc.file, first_of[d.name].line) not in said:
+                        stats.fail({"kind": "duplicate-not-reported"}, case, "name %r is defined twice in one scope (%s lines %s and %s) but no message points at either definition; errors: %s" % (d.name, sc.file, first_of[d.name].line, d.line, [(g[0].message, g[0].source_file, str(g[0].location)) for g in r.errors][:4]))
+                        return
+                else:
+                    first_of[d.name] = d
     if not hit:
         m = r.errors[0][0]
         stats.fail({"kind": "no-error-at-predicted-site", "faults": "+".join(kinds), "msg": m.message.split("'")[0][:30]}, case, "predicted %s; errors: %s" % ({"%s:%d" % k: v for k, v in fault_lines.items()}, [(g[0].message, g[0].source_file, str(g[0].location)) for g in r.errors][:4]))
